@@ -156,7 +156,9 @@ fn run_check(prop: &str, tier: Tier) -> i32 {
             eprintln!("MACHINERY: missing binary {exe}; run ./check setup");
             return 2;
         }
+        let part_start = Instant::now();
         let out = framework::drive(&exe, sub, tier, info.hang_secs);
+        eprintln!("[{sub}] {:.1}s", part_start.elapsed().as_secs_f64());
         for (k, v) in out.stats {
             if k.starts_with("max:") {
                 let e = stats.entry(k).or_insert(0u64);
